@@ -17,8 +17,9 @@ PROP = "C24"
 RULE = ("response scripts (directed catalogue + grammar-generated responses for 1-3 queued requests with at most one deviation each, peer close / "
         "half-close / open end, + truncations of valid streams at random bytes), each executed under 4 (quick) / 6 (thorough) segmentations; "
         "non-trivial = the reference parser derives at least one complete final response or a must-fail verdict; distinct = hash of (requests, stream, end)")
-SIZES = dict(quick=1100, thorough=60000)
-TRUNC = dict(quick=250, thorough=20000)
+SIZES = dict(quick=900, thorough=45000)
+TRUNC = dict(quick=200, thorough=10000)
+BATCH = 4000
 
 REG = dict(category="exploration",
            text="Runtime differential monitor: a real evhttp_connection (ASan+UBSan build) queues 1-3 requests against a scripted raw-socket peer that "
@@ -76,6 +77,7 @@ def catalogue():
     R.append(("te-and-cl", G, ok + b"Content-Length: 3\r\nTransfer-Encoding: chunked\r\n\r\n5\r\nhello\r\n0\r\n\r\n", None))
     R.append(("te-gzip-chunked", G, ok + b"Transfer-Encoding: gzip, chunked\r\n\r\n5\r\nhello\r\n0\r\n\r\n", 'X'))
     R.append(("te-gzip", G, ok + b"Transfer-Encoding: gzip\r\n\r\nrawbody", 'X'))
+    R.append(("te-gzip-cl", G, ok + b"Transfer-Encoding: gzip\r\nContent-Length: 3\r\n\r\nhello", 'X'))
     R.append(("te-tab", G, ok + b"Transfer-Encoding:\tchunked\r\n\r\n5\r\nhello\r\n0\r\n\r\n", 'X'))
     R.append(("te-case", G, ok + b"transfer-encoding: CHUNKED\r\n\r\n5\r\nhello\r\n0\r\n\r\n", None))
     R.append(("connect-200", [b"CONNECT"], b"HTTP/1.1 200 Connection established\r\n\r\ntunnel bytes", None))
@@ -94,41 +96,55 @@ def catalogue():
     return R
 
 
-def build_cases(tier, seed):
+VALID_TAGS = ('none', 'head', 'status-204', 'interim-100', 'interim-103', 'chunk-ext', 'trailers', 'close-delimited', 'conn-close')
+
+
+def iter_cases(tier, seed):
     rng = random.Random((seed << 8) ^ 0xC24)
-    cases = []
     idx = 0
     thorough = (tier == "thorough")
     for name, reqs, data, end in catalogue():
         c = ho.Case(idx, 'C', data, "-", end=end, requests=reqs, tags=["cat:" + name])
         c.segs = gen.segmentations(rng, data, thorough=thorough)
-        cases.append(c)
+        yield c
         idx += 1
     valid_pool = []
-    while idx < SIZES[tier]:
-        g = gen.gen_response_case(rng)
-        c = ho.Case(idx, 'C', g["data"], "-", end=g["end"], requests=g["requests"], tags=g["tags"])
-        c.segs = gen.segmentations(rng, c.data, thorough=thorough)
-        cases.append(c)
-        idx += 1
-        if all(t in ('none', 'head', 'status-204', 'interim-100', 'interim-103', 'chunk-ext', 'trailers', 'close-delimited', 'conn-close') for t in g["tags"]):
-            valid_pool.append(g)
-    # truncation family: the peer closes at byte i of an otherwise valid stream
     nt = 0
-    while nt < TRUNC[tier] and valid_pool:
-        g = rng.choice(valid_pool)
-        if len(g["data"]) < 2:
-            continue
-        cut = rng.randrange(0, len(g["data"]) + 1)
-        c = ho.Case(idx, 'C', g["data"][:cut], "-", end=rng.choice(['X', 'X', 'F']), requests=g["requests"], tags=["truncation"])
-        k = rng.randrange(1, max(2, len(c.data)))
-        c.segs = [('one', [c.data] if c.data else []), ('rand', gen.split_at(c.data, [k]) if c.data else [])]
-        if thorough or rng.random() < 0.3:
-            c.segs.append(('byte', [c.data[i:i + 1] for i in range(len(c.data))][:400]) if len(c.data) <= 400 else ('struct', gen.split_at(c.data, gen.structural_cuts(c.data))))
-        cases.append(c)
-        idx += 1
-        nt += 1
-    return cases
+    nmain = 0
+    every = max(1, SIZES[tier] // TRUNC[tier])
+    while nmain < SIZES[tier] or nt < TRUNC[tier]:
+        if nmain < SIZES[tier]:
+            g = gen.gen_response_case(rng)
+            c = ho.Case(idx, 'C', g["data"], "-", end=g["end"], requests=g["requests"], tags=g["tags"])
+            c.segs = gen.segmentations(rng, c.data, thorough=thorough)
+            yield c
+            idx += 1
+            nmain += 1
+            if all(t in VALID_TAGS for t in g["tags"]) and len(g["data"]) >= 2:
+                valid_pool.append(g)
+                if len(valid_pool) > 500:
+                    valid_pool.pop(rng.randrange(len(valid_pool)))
+        # truncation family: the peer closes at byte i of an otherwise valid stream
+        if valid_pool and nt < TRUNC[tier] and (nmain % every == 0 or nmain >= SIZES[tier]):
+            g = rng.choice(valid_pool)
+            cut = rng.randrange(0, len(g["data"]) + 1)
+            c = ho.Case(idx, 'C', g["data"][:cut], "-", end=rng.choice(['X', 'X', 'F']), requests=g["requests"], tags=["truncation"])
+            k = rng.randrange(1, max(2, len(c.data)))
+            c.segs = [('one', [c.data] if c.data else []), ('rand', gen.split_at(c.data, [k]) if c.data else [])]
+            if thorough or rng.random() < 0.3:
+                if len(c.data) <= 400:
+                    c.segs.append(('byte', [c.data[i:i + 1] for i in range(len(c.data))]))
+                else:
+                    c.segs.append(('struct', gen.split_at(c.data, gen.structural_cuts(c.data))))
+            yield c
+            idx += 1
+            nt += 1
+        elif not valid_pool and nmain >= SIZES[tier]:
+            break
+
+
+def build_cases(tier, seed):
+    return list(iter_cases(tier, seed))
 
 
 def judge_case(c, res):
@@ -149,39 +165,32 @@ def judge_case(c, res):
     return viol
 
 
+def account(c, res):
+    closed = c.end in ('X', 'F')
+    m0 = ref.parse_response(c.data, 0, c.requests[0], closed)
+    if m0.verdict in ('accept', 'either', 'reject') or (m0.verdict == 'incomplete' and closed):
+        res.hashes.add(ho.stream_hash(c))
+    for t in set(c.tags):
+        res.add_stat("gen_" + t.replace(":", "_"), 1)
+    r1 = c.results.get('one')
+    obs = ho.client_observed(r1, len(c.requests))
+    for o in obs:
+        res.add_stat("request_" + o["kind"], 1)
+        if o["kind"] == 'delivered':
+            res.add_stat("delivered_%dxx" % (o["code"] // 100), 1)
+    res.add_stat("peer_end_%s" % (c.end or "open"), 1)
+    res.add_stat("reconnects_seen", r1.get("reconn", 0))
+    res.add_stat("scripts", 1)
+    res.add_stat("segmentations_run", len(c.results))
+    if len(res.samples) < 5 and (c.idx % 131 == 7 or c.idx < 2):
+        res.samples.append(dict(requests=[m.decode() for m in c.requests], stream=ho.short(c.data, 300), end=c.end, segmentations=[n for n, _ in c.segs],
+                                observed=[ho.describe_obs(o) for o in obs]))
+
+
 def run(tier, seed):
     res = vlib.Result(PROP)
     vlib.build(ho.FLAVOR, [ho.HARNESS])
-    cases = build_cases(tier, seed)
-    nexec = ho.run_cases(res, PROP, cases, tier)
-    res.evaluations = nexec
-    for c in cases:
-        if len(c.results) != len(c.segs):
-            res.add_stat("cases_without_trace", len(c.segs) - len(c.results))
-            continue
-        closed = c.end in ('X', 'F')
-        m0 = ref.parse_response(c.data, 0, c.requests[0], closed)
-        if m0.verdict in ('accept', 'either', 'reject') or (m0.verdict == 'incomplete' and closed):
-            res.hashes.add(ho.stream_hash(c))
-        for t in set(c.tags):
-            res.add_stat("gen_" + t.replace(":", "_"), 1)
-        r1 = c.results.get('one')
-        for o in ho.client_observed(r1, len(c.requests)):
-            res.add_stat("request_" + o["kind"], 1)
-            if o["kind"] == 'delivered':
-                res.add_stat("delivered_%dxx" % (o["code"] // 100), 1)
-        res.add_stat("peer_end_%s" % (c.end or "open"), 1)
-        res.add_stat("reconnects_seen", r1.get("reconn", 0))
-        res.add_stat("scripts", 1)
-        res.add_stat("segmentations_run", len(c.results))
-        if len(res.samples) < 5 and (c.idx % 131 == 7 or c.idx < 2):
-            res.samples.append(dict(requests=[m.decode() for m in c.requests], stream=ho.short(c.data, 300), end=c.end, segmentations=[n for n, _ in c.segs],
-                                    observed=[ho.describe_obs(o) for o in ho.client_observed(r1, len(c.requests))]))
-        for k, t in judge_case(c, res):
-            res.add_viol(k, t, ho.case_replay(PROP, c))
-    missing = res.stats.get("cases_without_trace", 0)
-    if missing:
-        res.inconclusive.append("%d executions produced no trace" % missing)
+    ho.run_batched(res, PROP, iter_cases(tier, seed), tier, BATCH, judge_case, account)
     return vlib.finish(res, tier, seed, RULE,
                        required=["scripts", "request_delivered", "request_failed", "request_pending", "ref_accept", "ref_reject", "ref_either", "ref_incomplete",
                                  "rejected_as_required", "delivered_judged", "gen_truncation", "peer_end_X", "peer_end_F", "peer_end_open", "delivered_2xx"],
